@@ -21,3 +21,4 @@ pub const HEAP_INIT_BYTES_MAX: usize = 65536;
 pub const HEAP_GROWTH_FACTOR: usize = 2;
 pub const VEC_ELEMS_MAX: usize = isize::MAX as usize + 1;
 pub const INTERPOLATION_DEPTH_MAX: usize = 8;
+pub const NESTING_MAX: usize = 256;
